@@ -82,6 +82,15 @@ class MySQLModel(data_algebra.db_model.DBModel):
             )
         return self.identifier_quote + identifier + self.identifier_quote
 
+    def quote_string(self, string: str) -> str:
+        """
+        Quote a string value: backslash is an escape character in MySQL string literals (default sql_mode).
+        """
+        assert isinstance(string, str)
+        return data_algebra.db_model.DBModel.quote_string(
+            self, string.replace("\\", "\\\\")
+        )
+
 
 def example_handle():
     """
